@@ -220,7 +220,7 @@ def generate(rng, tier, shard, nshards, mon):
             yield case
         idx += 1
     mon.exhaustive["all (transform, depth, levels, style, entry point, permutation) over the fixed tree family"] = True
-    nrand = (9000 if tier == "quick" else 160000) // nshards
+    nrand = (9000 if tier == "quick" else 400000) // nshards
     for _ in range(nrand):
         yield _random_case(rng)
 
@@ -420,7 +420,7 @@ def _judge(ctx, op, desc, res, expected, clause="content", style=None, tags=(), 
         extra = [p for p in got if p not in expected]
         wrong = [p for p in expected if p in got and got[p] != expected[p]]
         if alt is not None and got == alt[1]:
-            kinds = alt[0]
+            kinds, ctags, tags = alt[0], (), ()
         else:
             kinds = "+".join(k for k, lst in (("missing", missing), ("extra", extra), ("value", wrong)) if lst)
         mon.check(False, _key(parts + [kinds], tuple(ctags) + (tuple(tags) if wfp else ())),
